@@ -17,7 +17,8 @@ ASSUMPTIONS = [
     'CompiledSimulation bakes initial state into the C text (hex()): initial registers/memory words are concrete boundary values '
     '(0 / 1 / all-ones / alternating), the other simulators start from the same values; later state is symbolic through the inputs',
     'sanctioned difference: memories compare under default_value = 0 for CompiledSimulation',
-    'the C hash-map helper text (create_hash_map/insert/lookup) is modelled as a total map; gcc and the mul128 inline asm are '
+    'the C hash-map helper text (insert/lookup) is modelled as a total map in the design-level obligations and checked on its own against a '
+    'functional map by vf/chelper.py (three symbolic inserts + lookup, unwinding assertions); gcc and the mul128 inline asm are '
     'trusted (exact 64x64->128 product); products wider than 4x4 bits are abstracted on BOTH sides over one uninterpreted '
     'mul64 with the range fact mul64(x,y) <= (2^|x|-1)(2^|y|-1)',
     'two enabled writes to one address in a cycle excluded (undefined)',
@@ -70,6 +71,9 @@ def cases(tier, seed):
         for f in forms:
             out.append(dict(c, K=K, form=f, sim='fast'))
             out.append(dict(c, K=K, form=f, sim='compiled', init=['zero', 'ones', 'alt'][i % 3]))
+    # the memory model of the C back end rests on its hash-map helper text: checked by vf/chelper.py
+    out.append({'fam': 'HELPER', 'k': 'chelper', 'limbs': 1, 'backend': 'compiled'})
+    out.append({'fam': 'HELPER', 'k': 'chelper', 'limbs': 2, 'backend': 'compiled'})
     return out
 
 
@@ -117,6 +121,9 @@ def uses_wide_mul(block):
 
 
 def run_case(case, ob, tier):
+    if case.get('k') == 'chelper':
+        from . import c08
+        return c08.run_chelper(case, ob, 'C02:compiled:hash-map-helper')
     site = site_of(case)
     block = prep(case)
     K = case['K']
@@ -201,6 +208,9 @@ def wire_order(block):
 
 def replay(cex):
     case = cex['case']
+    if case.get('k') == 'chelper':
+        from . import c08
+        return c08.replay(cex)
     block = prep(case)
     K = case['K']
     mv = cex.get('model', {})
